@@ -100,8 +100,15 @@ def gen_molquery(rng, natoms, layout=True, undefined_label=False):
     labels = []
     parts = []
     stem = rng.choice(['c', 'a', 'x', 'at_', 'L'])
+    odd = rng.random() < 0.06
     for i in range(natoms):
         lab = '%s%d' % (stem, i + 1)
+        if odd and rng.random() < 0.5:
+            # labels that collide with names used inside the reader
+            lab = rng.choice(['AtomLabel', 'Symbols', 'BondType', 'Atom',
+                              'labeled', 'fragment', 'C', 'H', '_', '1'])
+            if lab in labels:
+                lab = lab + str(i)
         s = gen_atomtype(rng) + ' labeled ' + lab
         if i > 0:
             to = rng.choice(labels)
